@@ -254,6 +254,7 @@ type world struct {
 	terms    map[int]*call
 	panicked string
 	dkeys    map[string]int
+	pqSpec   map[int]string // id -> "comps plat"
 }
 
 type evt struct{ ent, text string }
@@ -338,7 +339,9 @@ func (w *world) pqID(comps []int, plat int) int {
 	if err != nil {
 		panic(err)
 	}
-	return w.pqIDFor(pk.GetInstanceNamePrefix().String(), pk.GetPlatformString())
+	id := w.pqIDFor(pk.GetInstanceNamePrefix().String(), pk.GetPlatformString())
+	w.pqSpec[id] = fmt.Sprintf("%s %d", intsStr(comps), plat)
+	return id
 }
 
 func digestHash(d int) string {
@@ -396,7 +399,7 @@ func opIndex(name string) int {
 func newWorld(cfg config) *world {
 	w := &world{cfg: cfg, clk: &fakeClock{now: epoch}, cas: &fakeCAS{actions: map[string]*remoteexecution.Action{}},
 		pqIDs: map[string]int{}, invKeys: map[int]invocation.Key{}, invRev: map[string]int{}, digests: map[string]int{},
-		clients: map[int]*call{}, syncs: map[string]*call{}, terms: map[int]*call{}, dkeys: map[string]int{}}
+		clients: map[int]*call{}, syncs: map[string]*call{}, terms: map[int]*call{}, dkeys: map[string]int{}, pqSpec: map[int]string{}}
 	w.an = &analyzerState{w: w, bg: -1, selCalls: map[int]int{}, learners: map[int]int{}}
 	allow := auth.NewStaticAuthorizer(func(digest.InstanceName) bool { return true })
 	gen := func() (uuid.UUID, error) {
